@@ -121,7 +121,11 @@ def stack_cases(rng, page, psm, thorough):
         for s in fixed + [U64 - pg - 1, U64 - pg, U64 - pg + 1, U64 - pg + 2, U64 - 2, U64 - 1]:
             out.append("st %d %d %s 1 %d" % (pg, psm, "8388608", s))
         out.append("st %d %d %s 0 %d" % (pg, psm, "8388608", 12345))
+    # default stack size under every kind of RLIMIT_STACK: finite, small, below the minimum, unaligned,
+    # unlimited, getrlimit failing -- through uv_thread_create and uv_thread_create_ex(stack_size 0 / no flag)
+    rls += [str(psm + 1), str(psm + page - 1), "1", "4095", "2097151", "2097152", "2097153", "268435456", "1073741824"]
     for rl in rls:
+        out.append("tc %d %d %s" % (page, psm, rl))
         out.append("st %d %d %s 1 0" % (page, psm, rl))
         out.append("st %d %d %s 0 4096" % (page, psm, rl))
         for pg in sorted(set(pages)):
@@ -139,8 +143,10 @@ def stack_cases(rng, page, psm, thorough):
             s = U64 - rng.randrange(1, 3 * pg)
         else:
             s = rng.randrange(1 << 26, U64)
-        rl = rng.choice(rls[:2] + [str(rng.randrange(0, 1 << 27))])
+        rl = rng.choice(rls[:3] + [str(rng.randrange(0, 1 << 27))])
         out.append("st %d %d %s %d %d" % (pg, psm, rl, rng.choice([1, 1, 1, 0]), max(s, 0)))
+        if rng.random() < 0.25:
+            out.append("tc %d %d %s" % (pg, psm, rng.choice(rls[:3] + [str(rng.randrange(0, 1 << rng.randint(1, 28)))])))
     for _ in range(2000 if thorough else 300):
         pg = rng.choice(pages)
         r = rng.random()
@@ -152,19 +158,31 @@ def stack_cases(rng, page, psm, thorough):
 
 def stack_monitor(case, line):
     t = case.split()
-    if t[0] != "st":
+    if t[0] not in ("st", "tc"):
         return None
     f = line.split()
-    if len(f) != 4:
+    if len(f) != 6:
         return "thread creation ended with %s" % line
-    flag, req = int(t[4]), int(t[5])
+    flag, req = (0, 0) if t[0] == "tc" else (int(t[4]), int(t[5]))
+    fn = "uv_thread_create" if t[0] == "tc" else "uv_thread_create_ex"
+    default = t[0] == "tc" or flag == 0 or req == 0
+    rl = t[3]
+    # default stack size: whatever RLIMIT_STACK says (limits up to 1 GiB, unlimited, getrlimit failing),
+    # the thread must start, run its entry once with the given argument, and be joinable
+    if default and (rl == "F" or int(rl) == U64 - 1 or int(rl) <= 1 << 30) and (f[1] != "0" or f[2] != "1"):
+        return "thread not started with default stack size under RLIMIT_STACK = %s (rc %s): %s(stack_size 0)" \
+            % ("getrlimit failing" if rl == "F" else "RLIM_INFINITY" if int(rl) == U64 - 1 else rl, f[1], fn)
     if f[0] == "einval":          # refused before anything was set up
         return None if f[1] == "-22" and f[2] == "0" else "refused request but %s" % line
     applied, rc, ran, seen = int(f[0]), int(f[1]), int(f[2]), f[3]
     if rc == 0 and ran != 1:
-        return "uv_thread_create_ex returned 0 but the entry function ran %d times" % ran
+        return "%s returned 0 but the entry function ran %d times" % (fn, ran)
     if rc != 0 and ran != 0:
-        return "uv_thread_create_ex failed (%d) but the entry function ran" % rc
+        return "%s failed (%d) but the entry function ran" % (fn, rc)
+    if f[4] != "1":
+        return "the entry function did not receive the given argument"
+    if f[5] != "1":
+        return "uv_thread_join failed or returned before the entry function finished"
     if rc == 0 and flag and req > 0:
         if seen == "-":
             return "pthread_getattr_np failed in the thread"
@@ -449,7 +467,7 @@ def main():
     # the model predicts the size applied (first field); pthread_create's own result, the run count
     # and the size seen in the thread are the kernel's/glibc's answers, judged by the monitor only
     if len(a) == len(b) == len(sc):
-        b = [m + (" " + " ".join(x.split()[1:]) if c.startswith("st") and len(x.split()) == 4 else "")
+        b = [m + (" " + " ".join(x.split()[1:]) if c[:2] in ("st", "tc") and len(x.split()) == 6 else "")
              for c, x, m in zip(sc, a, b)]
     # (the wrap within a page of 2^64, DESIGN item 16, was repaired in /repo 4452eb2: a thread running
     # on less than it asked for is a violation like any other)
